@@ -28,14 +28,14 @@ res "build with change: exit $B (want 0)"
 ( cd "$DEMODIR" && timeout 300 go test -vet=off -count=1 -run "^$DNAME\$" . >"$OUT/demo_with.log" 2>&1 ); DC=$?
 res "demo with change: exit $DC (want non-zero)"
 rm -f "$DEMODIR/$(basename "$DEMO")"
-( cd "$WT" && timeout 1500 go test -vet=off -count=1 -timeout 20m . ./mocks >"$OUT/suite.log" 2>&1 ); S=$?
+( cd "$WT" && timeout 1500 go test -vet=off -count=1 -timeout 25m ./... >"$OUT/suite.log" 2>&1 ); S=$?
 res "suite with change: exit $S (want 0)"
 git -C /repo worktree remove --force "$WT"
 # now the checks against /repo with the change applied
 git -C /repo apply "$OUT/patch.diff" || { res "patch does not apply to /repo"; exit 2; }
 DET=""
 for c in $CHECKS; do
-  ( cd /verif && timeout 3000 ./check $c quick >"$OUT/check_$c.log" 2>&1 ); E=$?
+  ( cd /verif && timeout 3000 ./check $c quick -noevidence >"$OUT/check_$c.log" 2>&1 ); E=$?
   res "check $c quick with change: exit $E"
   grep -h "^VIOLATION" "$OUT/check_$c.log" | head -3 | tee -a "$OUT/run.log"
   [ $E -eq 1 ] && DET="$DET $c"
